@@ -25,7 +25,8 @@ def random_cover(rng, sizes, nverts, ncliques, base):
 
 def run(chk):
     thorough = chk.tier == "thorough"
-    chk.mc("Loaders", "MC_Loaders.cfg", required=["ResolveDegree", "DeleteColumn", "CreateJdd"])
+    chk.mc("Loaders", "MC_Loaders.cfg", required=["ResolveDegree", "DeleteColumn", "CreateJdd", "TryCandidate", "Restore"])
+    chk.mc("Loaders", "MC_Loaders_rejectleak.cfg", expect_violation="C06_Law")   # deviation: a rejected candidate input leaves something behind
     chk.mc("Loaders", "MC_Loaders_pinned_asc.cfg", expect_violation="C08_ColumnsAreOccurringSizes")
     rng = _r.Random(chk.seed)
     cs = []
@@ -46,6 +47,9 @@ def run(chk):
             if used == list(range(len(used))):
                 for base in (0, 1):
                     cs.append({"kind": "cover", "cover": [[v + base for v in c] for c in combo], "seed": 1})
+    # crash points: a malformed candidate cover is rejected by create_jdd and the previous cover is put back
+    for i, c0 in enumerate([c for c in cs if c.get("cover")][:90 if not thorough else 600]):
+        cs.append(dict(c0, reject=1 + i % 3, compose_n=0))
     chk.exhaustive["all covers of <= 2 cliques (sizes 2..4) over contiguous vertices 0..3 / 1..4"] = True
     for i in range(15000 if thorough else 150):
         mix = rng.choice(mixes)
